@@ -1107,3 +1107,111 @@ MUTANTS += [
     {"name": 'helper-search-shape-threshold-inclusive', "expect": 'R1.4', "edits": [(M, _SPLIT_TAIL, _HELPER_SEARCH_SHAPE % ("boundary not in self.buffer and ", ">="))]},
     {"name": 'helper-search-shape-early-release-also-when-the-boundary-text-is-there', "expect": 'R1.4', "edits": [(M, _SPLIT_TAIL, _HELPER_SEARCH_SHAPE % ("", ">"))]},
 ]
+
+# ---------------------------------------------------------------------------
+# round 4: the window position comes back from a helper that *returns* it (method / static method / function of the module,
+# one or two levels; the clamp at 0 written as max(), as a conditional expression or as an early `return 0`)
+
+_PH = "    def _parse_headers(self, data: bytes) -> Headers:"
+_CLS = "class MultipartDecoder:\n"
+
+
+def _returned(pre: str, part: str, helper: str, anchor: str = _PH) -> list:
+    return [(M, _WINDOW_PREAMBLE, pre), (M, _WINDOW_PART, part), (M, anchor, helper + anchor)]
+
+
+_RET_EARLY0 = """    def _resume_from(self, keep: int) -> int:
+        position = len(self.buffer) - keep
+        if position < 0:
+            return 0
+        return position
+
+"""
+_RET_STATIC = """    @staticmethod
+    def _resume_from(size: int, keep: int) -> int:
+        return max(size - keep, 0)
+
+"""
+_RET_FUNCTION = """def _resume_from(buffer: bytearray, keep: int) -> int:
+    return max(0, len(buffer) - %s)
+
+
+"""
+_RET_TWO_LEVELS = """    def _resume_from(self, keep: int) -> int:
+        return self._not_negative(len(self.buffer) - %s)
+
+    @staticmethod
+    def _not_negative(position: int) -> int:
+        return position if position > 0 else 0
+
+"""
+_RET_NO_PARAMS = """    def _resume_after_preamble_miss(self) -> int:
+        keep = len(self.boundary) + SEARCH_EXTRA_LENGTH
+        return 0 if len(self.buffer) < keep else len(self.buffer) - keep
+
+    def _resume_after_blank_line_miss(self) -> int:
+        return max(0, len(self.buffer) - %s)
+
+"""
+_RET_BUFFERED = """    def _buffered(self) -> int:
+        return len(self.buffer)
+
+"""
+_RET_THROUGH_SETTER = """    def _keep_tail(self, keep: int) -> None:
+        self._search_position = self._resume_from(keep)
+
+    def _resume_from(self, keep: int) -> int:
+        return max(0, len(self.buffer) - keep)
+
+"""
+_RET_DROPS_FIRST = """    def _resume_from(self, keep: int) -> int:
+        size = len(self.buffer)
+        return max(0, size - keep - %s)
+
+"""
+_CALL_PRE = "                self._search_position = self._resume_from(len(self.boundary) + SEARCH_EXTRA_LENGTH)\n"
+_CALL_PART = "                self._search_position = self._resume_from(SEARCH_EXTRA_LENGTH)\n"
+
+TWINS += [
+    {"name": "position-returned-by-method-clamped-with-early-return-0", "edits": _returned(_CALL_PRE, _CALL_PART, _RET_EARLY0)},
+    {"name": "position-returned-by-static-method-given-the-buffer-length", "edits": _returned(
+        "                self._search_position = self._resume_from(len(self.buffer), len(self.boundary) + SEARCH_EXTRA_LENGTH)\n",
+        "                self._search_position = MultipartDecoder._resume_from(keep=SEARCH_EXTRA_LENGTH, size=len(self.buffer))\n", _RET_STATIC)},
+    {"name": "position-returned-by-module-function-given-the-buffer", "edits": _returned(
+        "                self._search_position = _resume_from(self.buffer, len(self.boundary) + SEARCH_EXTRA_LENGTH)\n",
+        "                self._search_position = _resume_from(self.buffer, SEARCH_EXTRA_LENGTH)\n", _RET_FUNCTION % "keep", _CLS)},
+    {"name": "position-returned-through-two-helpers-conditional-clamp", "edits": _returned(_CALL_PRE, _CALL_PART, _RET_TWO_LEVELS % "keep")},
+    {"name": "position-returned-by-parameterless-helpers-held-in-a-local", "edits": _returned(
+        "                resume = self._resume_after_preamble_miss()\n                self._search_position = resume\n",
+        "                self._search_position = self._resume_after_blank_line_miss()\n", _RET_NO_PARAMS % "SEARCH_EXTRA_LENGTH")},
+    {"name": "buffer-length-returned-by-helper", "edits": _returned(
+        "                self._search_position = max(0, self._buffered() - len(self.boundary) - SEARCH_EXTRA_LENGTH)\n",
+        "                self._search_position = max(0, self._buffered() - SEARCH_EXTRA_LENGTH)\n", _RET_BUFFERED)},
+    {"name": "setter-helper-stores-what-a-returning-helper-computes", "edits": _returned(
+        "                self._keep_tail(len(self.boundary) + SEARCH_EXTRA_LENGTH)\n", "                self._keep_tail(SEARCH_EXTRA_LENGTH)\n", _RET_THROUGH_SETTER)},
+    {"name": "position-returned-by-helper-that-keeps-more-than-asked", "edits": _returned(_CALL_PRE, _CALL_PART, _RET_DROPS_FIRST % "2")},
+]
+
+MUTANTS += [
+    {"name": "returned-position-too-short-for-blank-line", "expect": "R1.1", "edits": _returned(
+        _CALL_PRE, "                self._search_position = self._resume_from(2)\n", _RET_EARLY0)},
+    {"name": "returned-position-static-forgets-boundary-length", "expect": "R1.1", "edits": _returned(
+        "                self._search_position = self._resume_from(len(self.buffer), SEARCH_EXTRA_LENGTH)\n",
+        "                self._search_position = MultipartDecoder._resume_from(keep=SEARCH_EXTRA_LENGTH, size=len(self.buffer))\n", _RET_STATIC)},
+    {"name": "returned-position-module-function-keeps-less-than-asked", "expect": "R1.1", "edits": _returned(
+        "                self._search_position = _resume_from(self.buffer, len(self.boundary) + SEARCH_EXTRA_LENGTH)\n",
+        "                self._search_position = _resume_from(self.buffer, SEARCH_EXTRA_LENGTH)\n", _RET_FUNCTION % "(keep - 6)", _CLS)},
+    {"name": "returned-position-two-helpers-inner-keeps-less", "expect": "R1.1", "edits": _returned(_CALL_PRE, _CALL_PART, _RET_TWO_LEVELS % "keep + 7")},
+    {"name": "returned-position-parameterless-helper-too-short", "expect": "R1.1", "edits": _returned(
+        "                resume = self._resume_after_preamble_miss()\n                self._search_position = resume\n",
+        "                self._search_position = self._resume_after_blank_line_miss()\n", _RET_NO_PARAMS % "2")},
+    {"name": "buffer-length-helper-window-too-short", "expect": "R1.1", "edits": _returned(
+        "                self._search_position = max(0, self._buffered() - SEARCH_EXTRA_LENGTH)\n",
+        "                self._search_position = max(0, self._buffered() - SEARCH_EXTRA_LENGTH)\n", _RET_BUFFERED)},
+    {"name": "setter-through-returning-helper-too-short", "expect": "R1.1", "edits": _returned(
+        "                self._keep_tail(len(self.boundary) + SEARCH_EXTRA_LENGTH)\n", "                self._keep_tail(1)\n", _RET_THROUGH_SETTER)},
+    {"name": "returned-position-helper-keeps-less-than-asked", "expect": "R1.1", "edits": _returned(_CALL_PRE, _CALL_PART, _RET_DROPS_FIRST % "(-6)")},
+    # the returned window is still a window: it goes stale like one stored directly
+    {"name": "returned-position-not-reset-after-headers", "expect": "R1.2", "edits": _returned(_CALL_PRE, _CALL_PART, _RET_EARLY0) + [
+        (M, "                self.state = State.DATA_START\n                self._search_position = 0\n", "                self.state = State.DATA_START\n")]},
+]
